@@ -85,6 +85,33 @@ theorem hmmer_perm_invariant (cut : Int → Option Int) (limit : Int) (l₁ l₂
     (h : HitFilter.removeOverlapping cut limit l₁ = .ok out) : HitFilter.removeOverlapping cut limit l₂ = .ok out :=
   C13.hmmer_perm_invariant cut limit l₁ l₂ out hp h
 
+/-! ## stage `refine`, the walk over the profiles in `_merge_domain_list` -/
+
+/-- the code walks the `categories` dict, i.e. the profiles in the order of their first hit in the
+    sorted hit list: C13's `mergeDomainList` / default-mode `refine` are the explicit-walk versions
+    with the identity enumerator (no set of names is involved) -/
+theorem mergeDomainList_walks_first_occurrence_order : mergeDomainListE id = mergeDomainList := rfl
+
+theorem refine_default_walks_first_occurrence_order (env : Env) : refineMergeE id env = refine env false := rfl
+
+/-- H: the merged hits start at pairwise different positions.  Then any walk over the profiles
+    (e.g. a set of names under any hash seed) gives the same merged list -/
+theorem mergeDomainListE_invariant_partial (e₁ e₂ : List Int → List Int) (h₁ : ∀ l, (e₁ l).Perm l) (h₂ : ∀ l, (e₂ l).Perm l)
+    (env : Env) (domains : List Hit)
+    (hd : ∀ a ∈ (firstOcc (domains.map (·.prof))).flatMap (mergedOfProfile env domains),
+          ∀ b ∈ (firstOcc (domains.map (·.prof))).flatMap (mergedOfProfile env domains), a.qs = b.qs → a = b) :
+    mergeDomainListE e₁ env domains = mergeDomainListE e₂ env domains :=
+  mergeDomainListE_eq_of_perm h₁ h₂ env domains hd
+
+/-- without H it is false, and it matters: profiles 0 and 3 hit `[0,100)` with the same score,
+    profile 0 has a second fragment; walking the profiles as a set keeps a different hit than
+    walking them in the other order — the code's walk gives profile 0's hit -/
+theorem mergeDomainList_set_walk_witness :
+    refineMergeE id C13.exEnv [⟨0, 0, 100, 1, 300⟩, ⟨3, 0, 100, 1, 300⟩, ⟨0, 300, 310, 1, 100⟩] ≠
+      refineMergeE List.reverse C13.exEnv [⟨0, 0, 100, 1, 300⟩, ⟨3, 0, 100, 1, 300⟩, ⟨0, 300, 310, 1, 100⟩] ∧
+    refine C13.exEnv false [⟨0, 0, 100, 1, 300⟩, ⟨3, 0, 100, 1, 300⟩, ⟨0, 300, 310, 1, 100⟩] = [⟨0, 0, 100, 1, 300⟩] := by
+  decide
+
 /-! ## stage `uniqueProtoclusters` (Region.get_unique_protoclusters, fix D54) -/
 
 /-- the full sentence -/
@@ -129,6 +156,26 @@ theorem uniqueProtoclustersOld_not_invariant :
       uniqueProtoclustersOld l₁ ≠ uniqueProtoclustersOld l₂ ∧
       uniqueProtoclusters false 0 l₁ = uniqueProtoclusters false 0 l₂ :=
   ⟨[⟨10, 70, 1, 30, 60, 1⟩, ⟨10, 70, 2, 30, 60, 2⟩], [⟨10, 70, 2, 30, 60, 2⟩, ⟨10, 70, 1, 30, 60, 1⟩], List.Perm.swap _ _ _, by decide, by decide, by decide⟩
+
+/-- H stated on the fields the key reads: no two members agree on start, length, product and core
+    (coordinates inside the record for an origin-spanning region) — the shift over the origin never
+    merges two keys -/
+theorem uniqueProtoclusters_invariant_of_fields_partial (cross : Bool) (L : Int) (l₁ l₂ : List Proto)
+    (h : FieldsInj l₁) (hr : cross = true → ∀ p ∈ l₁, 0 ≤ p.start ∧ p.start < L) (hp : l₁.Perm l₂) :
+    uniqueProtoclusters cross L l₁ = uniqueProtoclusters cross L l₂ :=
+  uniqueProtoclusters_perm (keyInj_of_fieldsInj h hr) hp
+
+/-- the shape the property forbids after the origin of an origin-spanning region: a tie-break
+    computed from the protocluster's own extent instead of its core does not separate two
+    protoclusters of one product covering the same area — they come out in enumeration order; the
+    code's key gives one order -/
+theorem uniqueProtoclustersOwnExtent_not_invariant :
+    ∃ l₁ l₂ : List Proto, l₁.Perm l₂ ∧ hasKeyTie (protoKey true 1000) l₁ = false ∧
+      uniqueProtoclustersOwnExtent true 1000 l₁ ≠ uniqueProtoclustersOwnExtent true 1000 l₂ ∧
+      uniqueProtoclusters true 1000 l₁ = uniqueProtoclusters true 1000 l₂ :=
+  ⟨[⟨950, 100, 0, 960, 990, 0⟩, ⟨10, 50, 1, 14, 22, 2⟩, ⟨10, 50, 1, 13, 21, 1⟩],
+   [⟨950, 100, 0, 960, 990, 0⟩, ⟨10, 50, 1, 13, 21, 1⟩, ⟨10, 50, 1, 14, 22, 2⟩],
+   (List.Perm.swap _ _ _).cons _, by decide, by decide, by decide⟩
 
 /-- D64: between D54 and D64 the key stopped at the product; two protoclusters of one product on the
     same coordinates with different cores (sideloaded annotations) came out in enumeration order;
@@ -236,6 +283,9 @@ example : uniqueProtoclusters false 0 [⟨10, 70, 2, 30, 60, 0⟩, ⟨10, 70, 0,
     [⟨10, 70, 0, 30, 60, 1⟩, ⟨10, 70, 1, 30, 60, 2⟩, ⟨10, 70, 2, 30, 60, 0⟩] := by decide
 example : uniqueProtoclusters true 1000 [⟨5, 70, 0, 25, 55, 0⟩, ⟨900, 150, 1, 920, 950, 1⟩, ⟨950, 80, 0, 970, 1000, 2⟩] =
     [⟨900, 150, 1, 920, 950, 1⟩, ⟨950, 80, 0, 970, 1000, 2⟩, ⟨5, 70, 0, 25, 55, 0⟩] := by decide
+/-- twins after the origin of an origin-spanning region (one product, one area): ordered by core -/
+example : uniqueProtoclusters true 1000 [⟨10, 50, 1, 14, 22, 2⟩, ⟨950, 100, 0, 960, 990, 0⟩, ⟨10, 50, 1, 13, 21, 1⟩] =
+    [⟨950, 100, 0, 960, 990, 0⟩, ⟨10, 50, 1, 13, 21, 1⟩, ⟨10, 50, 1, 14, 22, 2⟩] := by decide
 example : KeyInj false 0 [⟨10, 70, 2, 30, 60, 0⟩, ⟨10, 70, 0, 30, 60, 1⟩, ⟨10, 70, 1, 30, 60, 2⟩] :=
   (hasKeyTie_false_iff _ _ (by decide)).mp (by decide)
 /-- two products, sets of two and three names -/
